@@ -258,6 +258,11 @@ def _prove_combo(c, names, combo, tag, info):
                       detail={} if r == "invalid" else {"reason": why}, target=c.name, time_s=time.time() - t0))
     call_args = [a for n, a in zip(names, args) if n not in c.ghost]
     outcomes = eng.call(st, fun, call_args, {}, c.name)
+    missing = [h[0] for h in (getattr(eng, "ghost_hooks", None) or []) if h[0] not in getattr(eng, "ghost_hooks_fired", set())]
+    if missing:
+        # the code no longer contains the statements the ghost code is attached to: the sidecar is out of date, which is
+        # not a statement about the property
+        raise Unsupported(f"sidecar out of date: ghost code attached to {missing} matched no statement of the function")
     info["paths"] += len(outcomes)
     info["assumptions"].update(eng.assumptions_used)
     # group queries per obligation id
